@@ -59,9 +59,9 @@ TESTED_NOT_PROVED = [
                      "semantics (networks and sides are values, an operation writes one slot), so C15_frame / C15_copy_spec / C15_added_objects_by_value hold by "
                      "construction of the model; sharing in the implementation shows as a correspondence / oracle failure on the next edit of either object "
                      "(every network and caller-held object is observed after every op) - that is what guards the clause",
-                     "exactness of the species set for labels that were EVER kept: Inv's conjunct reads 'occurring or ever kept' (ghost only grows); the other "
-                     "direction is proved only as an upper bound on what each operation may drop (C15_species_shrink_only_where_allowed); that an orphaned species of a "
-                     "removed reaction IS dropped is checked by the oracle (species = occurring + kept-and-not-reoccurred) and the correspondence",
+                     "exactness of the species set for labels that were EVER kept is not a conjunct of Inv (its ghost `kept` only grows: 'occurring or ever kept'); it is "
+                     "proved operation by operation instead (C15_species_shrink_only_where_allowed: what may be dropped; C15_remove_rxn_prunes / C15_remove_species_prunes: "
+                     "what must be) and checked on every state by the oracle (species = occurring + kept-and-not-reoccurred)",
                      "__repr__ with molecule labels that are not strings or integers (str() of arbitrary objects is outside the model; oracle only)",
                      "insertion order inside a side (RXNSide.to_dict / expand order); sides are unordered maps in the model",
                      "numpy array construction of the dense matrix (the model has lists of rows)",
